@@ -16,6 +16,10 @@ import numpy as np
 from common import runner, enginea, kernels
 
 
+def rnd_ds_tol(seed):
+    return [0.002, 0.005, 0.02][seed % 3]
+
+
 def rot(g):
     q, r = np.linalg.qr(g.normal(size=(3, 3)))
     if np.linalg.det(q) < 0:
@@ -90,6 +94,9 @@ class C06(object):
             # indexer.getind / indexer.score as scorethem uses them: trial orientation after trial orientation with the
             # same two work buffers (the same grain found again from another pair of peaks, a twin, something else)
             desc["getind_seq"] = {"buffers": rnd.choice(["ones", "garbage", "garbage", "none"]), "bseed": rnd.getrandbits(32),
+                                  # the indexer also knows the unit cell and has assigned its peaks to rings before the trials
+                                  # (stray peaks far from every ring are left out of the ring-assigned subset)
+                                  "rings": rnd.random() < 0.5,
                                   "trials": [{"which": rnd.choice(["same", "same", "perturbed", "twin", "other"]),
                                               "tol": rnd.choice([None, None, 0.05, 0.25, 0.5]), "seed": rnd.getrandbits(32),
                                               # the drivers change the tolerance by plain attribute assignment between trials
@@ -176,7 +183,8 @@ class C06(object):
             labels = labels[~tie]
         return {"entry": kern, "ubi": ubi.tolist(), "gv": gv.tolist(), "tol": tol, "sel": sel,
                 "labels": None if labels is None else labels.tolist(), "label": label,
-                "cfg": enginea.draw_cfg(rnd, max_team=8), "gstyle": rnd.choice([0, 1])}
+                "cfg": enginea.draw_cfg(rnd, max_team=8), "gstyle": rnd.choice([0, 1]),
+                "ubi_layout": rnd.choice([None, None, None, "f", "t", "s"])}
 
     def describe(self, desc):
         return {"entry": desc["entry"], "sel": desc["sel"], "tol": desc["tol"], "npeaks": len(desc["gv"]),
@@ -269,12 +277,43 @@ class C06(object):
         nconc = 0
         if viol is None and desc.get("concurrent"):
             viol, nconc = self.exec_concurrent(desc, ctx)
+        nwrap = 0
+        if viol is None and kern == "score_and_refine" and n and desc.get("ubi_layout"):
+            # the same call the way Python callers make it, with the matrix in another memory layout (Fortran order, a
+            # transposed view, a slice of a stack): the wrapper declares the matrix in/out, so it must either refuse the
+            # array or leave the refined matrix in it
+            from ImageD11 import cImageD11 as cmod
+            L = desc["ubi_layout"]
+            if L == "f":
+                m = np.asfortranarray(ubi.copy())
+            elif L == "t":
+                m = np.ascontiguousarray(ubi.T).T
+            else:
+                stack = np.zeros((3, 3, 2))
+                stack[:, :, 1] = ubi
+                m = stack[:, :, 1]
+            enginea.apply_cfg(sim, cfg, strict=0, track_conflicts=0, pct_est=max(50, 40 * n), step_cap=2000000000)
+            sim.begin_run()
+            try:
+                with contextlib.redirect_stdout(io.StringIO()):
+                    cmod.score_and_refine(m, gv, tol)
+                accepted = True
+            except Exception:
+                accepted = False
+            nwrap = 1
+            want_m = outs[0][1]["ubi"]
+            if accepted and not np.array_equal(np.asarray(m), want_m):
+                viol = {"class": "refined-matrix-not-delivered", "key": "score_and_refine:refined-matrix-not-delivered",
+                        "detail": "cImageD11.score_and_refine accepted a %s matrix but did not leave the refined matrix in it (largest "
+                                  "difference %.3g)" % ({"f": "Fortran-ordered", "t": "transposed-view", "s": "stack-slice"}[L],
+                                                        float(np.abs(np.asarray(m) - want_m).max()))}
         ntrials = 0
         if viol is None and desc.get("getind_seq"):
             viol, ntrials = self.exec_getind(desc, ctx)
         meas = enginea.run_measures(st0, cfg)
         meas["concurrent_caller_runs"] = 1 if nconc else 0
         meas["getind_trials_on_shared_buffers"] = ntrials
+        meas["wrapper_calls_with_other_matrix_layout"] = nwrap
         meas["peaks_beyond_one_chunk"] = 1 if n > 4096 else 0
         meas["kernel"] = {kern: 1}
         meas["selection"] = {desc["sel"]: 1}
@@ -299,6 +338,19 @@ class C06(object):
         sim.begin_run()
         with contextlib.redirect_stdout(io.StringIO()):
             ix = self.indexing.indexer(gv=gv, hkl_tol=desc["tol"])
+            fin = np.isfinite(gv).all()
+            if gs.get("rings") and fin and n <= 1200 and float(np.abs(ubi @ gv.T).max()) < 15 and abs(np.linalg.det(ubi)) < 4000:
+                from ImageD11 import unitcell as ucmod
+                try:
+                    uc = ucmod.unitcell(self.indexing.ubitocellpars(ubi), "P")
+                    ix = self.indexing.indexer(unitcell=uc, gv=gv, wavelength=0.3, hkl_tol=desc["tol"], ds_tol=rnd_ds_tol(gs["bseed"]))
+                    ix.assigntorings()
+                    self.rings_assigned = getattr(self, "rings_assigned", 0) + 1
+                except Exception as e:
+                    if runner.is_harness_exception(e):
+                        raise
+                    return {"class": "raises", "key": "indexer.assigntorings:raises",
+                            "detail": "indexer.assigntorings raised %s: %s" % (type(e).__name__, e)}, 0
         gb = np.random.default_rng(gs["bseed"])
         if gs["buffers"] == "none":
             b1 = b2 = None
